@@ -12,6 +12,7 @@ mod c14;
 mod c15;
 mod c16;
 mod c17;
+mod c18;
 mod c19;
 mod c19b;
 mod c20;
@@ -75,6 +76,7 @@ fn main() {
             }
             0
         }
+        "C18" => c18::run(tier),
         "C19" => c19::run(tier),
         "C20" => c20::run(tier),
         "C01" => c01::run(c01::Prop::C01, tier),
